@@ -17,7 +17,7 @@ META = {
                    "matrix product are the specified projections of A_k B_k (E5 canonical networks, generic independent sizes) and every tensor "
                    "statement of its two sweeps types consistently over the independent rank families rx, rz, R_A, R_B, M, K, N (IFACE-TYPE). Does NOT decide the eps accuracy, convergence or seed independence.",
     "assumptions": ["convergence of randomised two-site sweeps and the unspecified 'small constant' are runtime quantities"],
-    "floors": {"ENRICH-WIDTH": 1, "ZERO-NORM": 4, "EMPTY-REDUCE": 2, "DEFASSIGN": 30, "RESULT-SHAPE": 4, "E3-PARAM": 3, "IFACE-TYPE": 28, "E5-CHAIN": 5},
+    "floors": {"ENRICH-WIDTH": 1, "ZERO-NORM": 4, "EMPTY-REDUCE": 2, "DEFASSIGN": 30, "RESULT-SHAPE": 4, "E3-PARAM": 3, "IFACE-TYPE": 20, "E5-CHAIN": 5},
 }
 ANCHORS = ["_dmrg.dmrg_matvec_python", "_dmrg.dmrg_hadamard_python", "_amen._amen_mm_python", "_tt_base.TT.fast_matvec", "_dmrg.dmrg_matvec",
            "_dmrg.dmrg_hadamard", "_amen.amen_mv", "_amen.amen_mm"]
@@ -45,7 +45,10 @@ def rule_empty_reduce(model: Model, fshort: str):
         if isinstance(n, ast.Call) and isinstance(n.func, ast.Name) and n.func.id in ("max", "min") and len(n.args) == 1 \
                 and isinstance(n.args[0], ast.Name) and n.args[0].id in short_lists:
             k = f"{fshort}:EMPTY-REDUCE:{n.func.id} over a list of length d-1:{sum(1 for o in obs)}"
-            if guard is not None and guard.lineno < n.lineno:
+            # dominance by position in the body (not by line number: an inlined helper keeps its own lines)
+            gi = f.node.body.index(guard) if guard is not None else None
+            ni = next((j for j, st in enumerate(f.node.body) if any(x is n for x in ast.walk(st))), None)
+            if gi is not None and ni is not None and gi < ni:
                 obs.append(Ob("EMPTY-REDUCE", k, OK, model.where(f, n), norm(n), f"dominated by `if {norm(guard.test)}: return ...`"))
             else:
                 obs.append(Ob("EMPTY-REDUCE", k, VIOLATED, model.where(f, n), norm(n),
@@ -120,10 +123,19 @@ def rule_result_kind(model: Model):
             parents[id(c)] = n
 
     def under_flag(n):
-        while id(n) in parents:
-            n = parents[id(n)]
-            if isinstance(n, ast.If) and mentions(n.test):
+        """inside an `if <flag>` branch, or after an `if <flag>: ... return/raise` that ends the other case (early-return form)"""
+        cur = n
+        while id(cur) in parents:
+            par = parents[id(cur)]
+            if isinstance(par, ast.If) and mentions(par.test):
                 return True
+            for fld in ("body", "orelse"):
+                blk = getattr(par, fld, None)
+                if isinstance(blk, list) and cur in blk:
+                    for prev in blk[:blk.index(cur)]:
+                        if isinstance(prev, ast.If) and mentions(prev.test) and prev.body and isinstance(prev.body[-1], (ast.Return, ast.Raise)):
+                            return True
+            cur = par
         return False
     rets = [n for n in ast.walk(f.node) if isinstance(n, ast.Return) and n.value is not None]
     for i, r in enumerate(rets):
@@ -140,6 +152,7 @@ def rule_result_kind(model: Model):
 
 def check(model: Model, tier: str):
     obs = []
+    model.use_inlined("_dmrg.dmrg_matvec_python", "_dmrg.dmrg_hadamard_python")   # a shared private driver is read in place
     for fs in ("_dmrg.dmrg_matvec_python", "_dmrg.dmrg_hadamard_python", "_amen._amen_mm_python"):
         obs += rule_empty_reduce(model, fs)
     exc = {("_amen._amen_mm_python", "sig:for:range(_)"): "read only in the verbose report after a zero-sweep run (nswp = 0)",
